@@ -68,12 +68,12 @@ theorem table_roundtrip_pptx (n : Nat) (hn : 1 ≤ n) (t : List (List Str)) (hne
       = some (t.map (List.map fun c => trim (replaceByte 13 [32] (nlToSpace c)))) :=
   table_roundtrip .pptx n hn t hne hrect hbs
 
-/-- **partial**: the full statement for htmldoc would cover tables whose cells carry
-`colspan`/`rowspan` (`renderHtmlSpan` reading back as `gridRow`, as proved for docx/odt in
-`table_roundtrip_spans_*`).  That is false for the code as it is (finding
-`C15/table-shape-merged-html`, see `html_merged_counterexample`); proved here: every table of
-plain cells. -/
-theorem table_roundtrip_html_partial (n : Nat) (hn : 1 ≤ n) (t : List (List Str)) (hne : t ≠ [])
+/-- htmldoc on a table of plain cells (rows of equal length, no spans).  The statement for tables
+whose cells carry `colspan`/`rowspan` — `renderHtmlSpan` reading back as the table's grid — is
+`table_roundtrip_html` in Props/C15Html.lean (it was the recorded finding
+`C15/table-shape-merged-html` until fix 72cc329; the old writer is kept there as
+`renderHtmlSpanOld` with its `_pinned_counterexample`s). -/
+theorem table_roundtrip_html_plain (n : Nat) (hn : 1 ≤ n) (t : List (List Str)) (hne : t ≠ [])
     (hrect : Rect n t) (hbs : NoBackslash t) :
     gfmTable (render .html t)
       = some (t.map (List.map fun c => trim (replaceByte 13 [] (nlToSpace c)))) :=
@@ -201,16 +201,6 @@ theorem rows_rectangular_spans (w : Writer) (hw : w ≠ .model) (t : List (List 
 example :
     gfmTable (renderSpan .docx [[⟨[65], 2, false⟩, ⟨[66], 1, false⟩], [⟨[], 1, true⟩, ⟨[120, 124], 1, false⟩]])
       = some [[[65], [], [66]], [[], [120, 124], []]] := by decide
-
-/-- htmldoc ignores `colspan`: a header cell spanning two columns over a two-cell data row gives
-a one-column table for a GFM reader, which drops the second data cell (`y`) — the grid
-`[[A, ""], [x, y]]` is not what is read back. -/
-theorem html_merged_counterexample :
-    gfmTable (renderHtmlSpan [[⟨[65], 2, false⟩], [⟨[120], 1, false⟩, ⟨[121], 1, false⟩]])
-        = some [[[65]], [[120]]] ∧
-      gfmTable (renderHtmlSpan [[⟨[65], 2, false⟩], [⟨[120], 1, false⟩, ⟨[121], 1, false⟩]])
-        ≠ some ([[⟨[65], 2, false⟩], [⟨[120], 1, false⟩, ⟨[121], 1, false⟩]].map (gridRow .html 2)) := by
-  decide
 
 /-- B14, the pinned `model.Table.ToMarkdown` (no escaping of `|`): the one-cell row `a|b`
 reads back as two cells. -/
